@@ -216,6 +216,11 @@ class Eval:
                     arms.append((hq.pat_key(a["pat"]), vals))
                 env[root] = ("upd", env.get(root, ("unknown", "unbound")), "entry", (self.expr(sn["args"][0], env, depth), ("arms", tuple(arms))))
                 return
+            decided = self.decide_arm(e, sc, env, depth)
+            if decided is not None:
+                self.bind_pat(decided["pat"], sc, env)
+                self.effect(decided["body"], env, depth)
+                return
             envs = []
             for a in e["arms"]:
                 ea = dict(env)
@@ -242,6 +247,28 @@ class Eval:
             return
         # any other expression: evaluate for nested effects (e.g. closures are ignored)
         self.expr(e, env, depth)
+
+    def decide_arm(self, e, sc, env, depth):
+        """the arm of match `e` taken for the scrutinee value sc, when sc is a literal constructor / literal / tuple of those; else None"""
+        if not (isinstance(sc, tuple) and sc and (sc[0] == "ctor" or (sc[0] == "lit" and len(sc) == 2) or
+                                                  (sc[0] == "list" and sc[1] and all(isinstance(x, tuple) and x and x[0] in ("ctor", "lit") for x in sc[1])))):
+            return None
+        for a in e["arms"]:
+            r = pat_vs_term(a["pat"], sc)
+            if r is False:
+                continue
+            if r is None:
+                return None
+            if "guard" in a:
+                eg = dict(env)
+                self.bind_pat(a["pat"], sc, eg)
+                gv = decide_bool(self.expr(a["guard"], eg, depth))
+                if gv is False:
+                    continue
+                if gv is None:
+                    return None
+            return a
+        return None
 
     def merge(self, env, key, envs):
         ids = set()
@@ -383,7 +410,7 @@ class Eval:
             arms = []
             envs = []
             live = e["arms"]
-            if isinstance(sc, tuple) and sc and (sc[0] == "ctor" or (sc[0] == "list" and sc[1] and all(isinstance(x, tuple) and x and x[0] in ("ctor", "lit") for x in sc[1]))):
+            if isinstance(sc, tuple) and sc and (sc[0] == "ctor" or (sc[0] == "lit" and len(sc) == 2) or (sc[0] == "list" and sc[1] and all(isinstance(x, tuple) and x and x[0] in ("ctor", "lit") for x in sc[1]))):
                 # the scrutinee is a literal constructor: drop the arms it cannot take, stop at the first it must take
                 live = []
                 decided = None
@@ -639,6 +666,9 @@ def decide_bool(t):
         if a is True or b is True:
             return True
         return False if (a is False and b is False) else None
+    if t[0] == "bin" and t[1] in ("Eq", "Ne", "Lt", "Le", "Gt", "Ge") and all(isinstance(x, tuple) and x and x[0] == "lit" and isinstance(x[1], (int, float)) and not isinstance(x[1], bool) for x in (t[2], t[3])):
+        a, b = t[2][1], t[3][1]
+        return {"Eq": a == b, "Ne": a != b, "Lt": a < b, "Le": a <= b, "Gt": a > b, "Ge": a >= b}[t[1]]
     if t[0] == "bin" and t[1] in ("Eq", "Ne") and all(isinstance(x, tuple) and x and x[0] == "ctor" and not x[2] for x in (t[2], t[3])):
         same = t[2][1] == t[3][1]
         return same if t[1] == "Eq" else not same
